@@ -16,6 +16,7 @@
 From Coq Require Import Reals Lra List.
 From D3 Require Import Base.Ops Base.Vec Base.RVec Base.RVec2 Spec.Convex Spec.Shapes
   Model.Support Proofs.ShapesTac Proofs.SupportA Proofs.SupportB Proofs.MeshClimb.
+From D3 Require Proofs.MeshClimbGen.
 Import ListNotations.
 Local Open Scope R_scope.
 
@@ -126,6 +127,31 @@ Theorem C03_mesh_hill_climb_terminates : forall (d : V3R) vs conn shortcuts star
   exists i, hill_climb (S (length vs)) d start vs conn shortcuts = ClimbOk i /\ (i < length vs)%nat.
 Proof. exact hill_climb_terminates. Qed.
 Print Assumptions C03_mesh_hill_climb_terminates.
+
+(** the same in ANY arithmetic (the model is generic in [Ops F]) in which the code's acceptance
+    test [best_projection + 10*eps < projection] implies [best_projection << projection] for a
+    strict order [<<] (boolean, irreflexive, transitive).  For binary64 that hypothesis is the
+    monotonicity of rounded addition (not proved here: no IEEE library); the reals satisfy it
+    ([C03_mesh_R_instance]).  The code before /repo 7cb1be3 tested the rounded DIFFERENCE of two
+    vertices instead, which implies no order, and cycled (finding F-M1). *)
+Theorem C03_mesh_terminates_any_arithmetic :
+  forall (F : Type) (O : Ops F) (lt : F -> F -> bool),
+  (forall a, lt a a = false) ->
+  (forall a b c, lt a b = true -> lt b c = true -> lt a c = true) ->
+  (forall a b, ltb (add a EPSILON10) b = true -> lt a b = true) ->
+  forall (d : V3 F) (vs : list (V3 F)) conn shortcuts start,
+  MeshClimbGen.conn_closed vs conn -> (start < length vs)%nat ->
+  (forall j, In j shortcuts -> (j < length vs)%nat) ->
+  exists i, hill_climb (S (length vs)) d start vs conn shortcuts = ClimbOk i /\ (i < length vs)%nat.
+Proof. exact (@MeshClimbGen.hill_climb_terminates_any_arithmetic). Qed.
+Print Assumptions C03_mesh_terminates_any_arithmetic.
+
+Theorem C03_mesh_R_instance :
+  (forall a : R, Rltb a a = false) /\
+  (forall a b c : R, Rltb a b = true -> Rltb b c = true -> Rltb a c = true) /\
+  (forall a b : R, @ltb R ROps (@add R ROps a (@EPSILON10 R ROps)) b = true -> Rltb a b = true).
+Proof. exact MeshClimbGen.R_instance. Qed.
+Print Assumptions C03_mesh_R_instance.
 
 Theorem C03_mesh_query_total (T : Pose R) vs conn shortcuts first_idx (d : V3R) :
   conn_closed vs conn -> (first_idx < length vs)%nat ->
@@ -349,3 +375,61 @@ Theorem C03_membership_cert_sound S w p tau :
   exists q, Checker.Shapes.sem S q /\ norm (vsub (Checker.Shapes.v2r p) q) <= Q2R tau.
 Proof. exact (ShapesCert.in_shape_tolD_sound S w p tau). Qed.
 Print Assumptions C03_membership_cert_sound.
+
+(** ** the shape expressions the certificates speak about denote the point sets of Spec/Shapes.v
+       (Checker/ShapesBridge.v).  [frame c u v w] is the pose with columns u, v, w and translation c;
+       [qball r] the ball of radius r; the expression for each collider kind is the one built by
+       harness/narrow.py from the columns of the pose scaled by the sizes. *)
+From D3 Require Checker.ShapesBridge.
+Import Checker.Shapes Checker.ShapesBridge.
+Theorem C03_expr_box (c u v w : VQ) (x : V3R) :
+  sem (Sum (Pt c) (Sum (Seg u) (Sum (Seg v) (Seg w)))) x <-> image (frame c u v w) (box_K (V 1 1 1)) x.
+Proof. exact (bridge_box c u v w x). Qed.
+Print Assumptions C03_expr_box.
+Theorem C03_expr_ellipsoid (c u v w : VQ) (x : V3R) :
+  sem (Sum (Pt c) (Ell u v w)) x <-> image (frame c u v w) (ball_K 1) x.
+Proof. exact (bridge_ellipsoid c u v w x). Qed.
+Print Assumptions C03_expr_ellipsoid.
+Theorem C03_expr_sphere (c : VQ) (r : Q) (x : V3R) : 0 <= Q2R r ->
+  (sem (Sum (Pt c) (qball r)) x <-> sphere_set (v2r c) (Q2R r) x).
+Proof. exact (bridge_sphere c r x). Qed.
+Print Assumptions C03_expr_sphere.
+Theorem C03_expr_cylinder (c u v w : VQ) (x : V3R) :
+  sem (Sum (Pt c) (Sum (Seg w) (Ell u v qzero))) x <-> image (frame c u v w) (cylinder_K 1 2) x.
+Proof. exact (bridge_cylinder c u v w x). Qed.
+Print Assumptions C03_expr_cylinder.
+Theorem C03_expr_flat (c u v w : VQ) (x : V3R) :
+  sem (Sum (Pt c) (Ell u v qzero)) x <-> image (frame c u v w) (disk_K 1) x.
+Proof. exact (bridge_flat c u v w x). Qed.
+Print Assumptions C03_expr_flat.
+Theorem C03_expr_capsule (c w : VQ) (r : Q) (x : V3R) : 0 <= Q2R r ->
+  (sem (Sum (Pt c) (Sum (Seg w) (qball r))) x <->
+   exists t, -1 <= t <= 1 /\ dot (vsub x (vadd (v2r c) (vscale t (v2r w)))) (vsub x (vadd (v2r c) (vscale t (v2r w)))) <= Q2R r * Q2R r).
+Proof. exact (bridge_capsule c w r x). Qed.
+Print Assumptions C03_expr_capsule.
+Theorem C03_expr_cone (a c u v : VQ) (x : V3R) :
+  sem (HullU (Pt a) (Sum (Pt c) (Ell u v qzero))) x <->
+  exists t t1 t2, 0 <= t <= 1 /\ t1 * t1 + t2 * t2 <= 1 /\
+    x = vadd (vscale (1 - t) (v2r a)) (vscale t (vadd (v2r c) (vadd (vscale t1 (v2r u)) (vscale t2 (v2r v))))).
+Proof. exact (bridge_cone a c u v x). Qed.
+Print Assumptions C03_expr_cone.
+Theorem C03_expr_margin (s : sh) (m : Q) (x : V3R) : 0 <= Q2R m ->
+  (sem (Sum s (qball m)) x <-> inflate (sem s) (Q2R m) x).
+Proof. exact (bridge_margin s m x). Qed.
+Print Assumptions C03_expr_margin.
+Theorem C03_expr_hull (ps : list VQ) (x : V3R) : sem (HullPts ps) x <-> conv_hull (map v2r ps) x.
+Proof. exact (bridge_hull ps x). Qed.
+Print Assumptions C03_expr_hull.
+(** unit canonical sets under the size-scaled pose = the sized sets *)
+Theorem C03_box_set_unit (T : Pose R) (size : V3R) (x : V3R) : 0 < vx size -> 0 < vy size -> 0 < vz size ->
+  (box_set T size x <-> image (P (scale_cols (rot T) (vscale (/ 2) size)) (trans T)) (box_K (V 1 1 1)) x).
+Proof. exact (box_set_unit T size x). Qed.
+Print Assumptions C03_box_set_unit.
+Theorem C03_ellipsoid_set_unit (T : Pose R) (radii : V3R) (x : V3R) : 0 < vx radii -> 0 < vy radii -> 0 < vz radii ->
+  (ellipsoid_set T radii x <-> image (P (scale_cols (rot T) radii) (trans T)) (ball_K 1) x).
+Proof. exact (ellipsoid_set_unit T radii x). Qed.
+Print Assumptions C03_ellipsoid_set_unit.
+Theorem C03_cylinder_set_unit (T : Pose R) (r l : R) (x : V3R) : 0 < r -> 0 < l ->
+  (cylinder_set T r l x <-> image (P (scale_cols (rot T) (V r r (l / 2))) (trans T)) (cylinder_K 1 2) x).
+Proof. exact (cylinder_set_unit T r l x). Qed.
+Print Assumptions C03_cylinder_set_unit.
